@@ -735,7 +735,22 @@ pub fn run_c11(tier: &str, seed: u64, out: &mut Out) {
                     if let (Ok(d), Src::Slice) = (&res, src) {
                         out.count("datum:parsed");
                         let c = case.clone();
-                        let chk = std::panic::catch_unwind(std::panic::AssertUnwindSafe(|| { let mut o = Out::new(); check_spans(&mut o, tb, ro, d.as_ref(), None, None, &c, 0); o }));
+                        let chk = std::panic::catch_unwind(std::panic::AssertUnwindSafe(|| {
+                            let mut o = Out::new();
+                            check_spans(&mut o, tb, ro, d.as_ref(), None, None, &c, 0);
+                            // owned copies of the datum and of its parts report the same spans
+                            let copy = d.clone();
+                            check_spans(&mut o, tb, ro, copy.as_ref(), None, None, &c, 0);
+                            let kids: Vec<Ref<'_>> = if d.value().is_cons() { let mut v = vec![]; let mut it = d.as_ref().list_iter().unwrap(); loop { match it.next() { Some(x) => v.push(x), None => { if it.is_empty() { break; } } } } v }
+                                                     else if let Some(it) = d.as_ref().vector_iter() { it.collect() } else { vec![] };
+                            for k in kids {
+                                let owned: lexpr::Datum = k.into();
+                                if owned.span() != k.span() { o.fail("span", "a datum made from a reference reports another span than the reference".into(), c.clone(), json!({})); }
+                                let parent = span_offsets(tb, d.as_ref());
+                                check_spans(&mut o, tb, ro, owned.as_ref(), parent, None, &c, 1);
+                            }
+                            o
+                        }));
                         match chk { Ok(o) => { out.oracle_checks += o.oracle_checks; out.failures.extend(o.failures); } Err(_) => out.fail("panic", "span walk panicked".into(), case.clone(), json!({})) }
                     }
                 }
@@ -814,6 +829,36 @@ pub fn run_c17(tier: &str, seed: u64, out: &mut Out) {
                 }
             }
         }
+    }
+    // a token that leaves raw bytes in the parser's scratch space (an Emacs string with byte
+    // escapes, a cut multi-byte character) directly followed by each kind of token that is
+    // scanned into it: dot-initial symbols inside lists, sign-initial symbols, keywords, strings
+    {
+        let firsts = ["\"\\377\"", "\"\\xff\"", "\"\\211PNG\"", "\"a\\x80;\"", "\"\\303\"", "\"\\M-a\"", "?\\377", "\"\\xc3\\ \""];
+        let nexts = ["...", ".foo", ".\u{e9}", "+x", "-", "#:k", ":k", "k:", "\"s\"", "\u{3bb}y", "12ab", "#%r", "|"];
+        let mut texts: Vec<String> = vec![];
+        for f in firsts { for nx in nexts {
+            texts.push(format!("({} {})", f, nx));
+            texts.push(format!("({}{})", f, nx));
+            texts.push(format!("[{} ;c\n {} z]", f, nx));
+            texts.push(format!("({} . {})", f, nx));
+        } }
+        let ros2: Vec<Ro> = vec![Ro::DEFAULT, Ro::ELISP, Ro { kw: 7, nil: 1, t: 1, brackets: 1, string: 1, chr: 1, racket: 1, digit: 1 }];
+        for ro in &ros2 { for t in &texts {
+            let text = t.as_bytes().to_vec();
+            out.count("context:after-raw-bytes");
+            for src in srcs_for(&text) {
+                let case = format!("parse {} {} {}", src.name(), ro.code(), bytes_code(&text));
+                out.oracle_checks += 1;
+                match parse_value(src, *ro, &text) {
+                    Ok(res) => {
+                        if let Ok(v) = &res { if !strs_valid(v) { out.fail("utf8", "a parsed value contains a str that is not well-formed UTF-8".into(), case.clone(), json!({"text": hex(&text)})); } }
+                        out.case(case, vres_obs(&res), true);
+                    }
+                    Err(p) => out.fail("utf8-panic", format!("parse panicked (hook assertions included): {}", p), case, json!({"text": hex(&text)})),
+                }
+            }
+        } }
     }
     // random streams: all strs of all parsed values, all sources; iterated parsing
     let n = match tier { "thorough" => 80_000, "search" => 30_000, _ => 3_000 };
